@@ -86,6 +86,7 @@ type VC struct {
 	readMemo        map[string]string
 	rootRets        []retInfo // the return sites of the function under contract (unmerged)
 	noSafety        bool      // contract option nosafety
+	safetyOnly      map[string]bool // kinds of safety obligations kept under nosafety
 	freshRefs       map[string]bool
 	inlineAll       bool
 	usedContracts   map[string]bool
